@@ -10,9 +10,18 @@ def dup(w, rng):
         rng.shuffle(w.presented)
 
 
+def many_threads(w, rng):
+    w.threads = rng.choice([2, 3, 4, 8])
+
+
+def scheduled(sc, w):
+    """Run under the deterministic scheduler (every lock operation and every println! is a scheduling point)."""
+    return {"sched": (7919 * sc.index + 13, [])}
+
+
 correspondence, search, replay, ASSUMPTIONS = runbase.make(
     "C15", [oracles.c15],
-    [("std", 160, 1500, {}, None), ("dup", 100, 1000, {}, dup)],
-    "generated worlds, with duplicate and permuted torrent lists; stdout progress lines of the real run vs piece count, per-piece outcomes and the export tree afterwards",
+    [("std", 130, 1200, {}, None), ("dup", 70, 800, {}, dup), ("sched", 60, 600, {}, many_threads, scheduled)],
+    "generated worlds, with duplicate and permuted torrent lists, with real threads and (stream sched) under seeded schedules of the deterministic scheduler in which every lock operation and every progress print is a scheduling point; stdout progress lines of the real run, in print order, vs piece count, per-piece outcomes and the export tree afterwards",
     "counters_sum / one line per piece on the model; success only after the found branch (solve_prog) ; tied to the code by trace validation and the progress-line oracle",
     ["'verifies afterwards' is checked for fault-free completed runs"])
